@@ -544,7 +544,23 @@ def focus_on_difference(prop, d):
                                     observed=out.model_dump())
         elif prop == "C09" and "elapse" in reds:
             t = d.get("payload") if d.get("reducer") == "elapse" and isinstance(d.get("payload"), (int, float)) else 1000.0
-            for a in (t / 4.0, t / 2.0, 30.0):
+
+            def leaves(x):
+                if isinstance(x, dict):
+                    for v in x.values():
+                        yield from leaves(v)
+                elif isinstance(x, (list, tuple)):
+                    for v in x:
+                        yield from leaves(v)
+                elif isinstance(x, (int, float)) and not isinstance(x, bool):
+                    yield float(x)
+            # chunk boundaries that coincide with a time stored in the state (a remaining running time, a counter, a cooldown): the
+            # places where "ends within this elapse" and "ended exactly now" part ways; the single elapse goes past the largest of them
+            marks = sorted({v for v in leaves(d["state"]) if 0 < v < 10 ** 7})
+            if marks and t <= marks[-1]:
+                t = marks[-1] + max(t, 1000.0)
+            splits = [m for m in marks if 0 < m < t][:12] + [t / 4.0, t / 2.0, 30.0]
+            for a in splits:
                 b = t - a
                 if a <= 0 or b <= 0:
                     continue
